@@ -178,6 +178,27 @@ UNITS += [
 KANI = []
 # restore reads several blobs of one pack with ONE ranged read (PackInfo::coalesce over BlobLocations): the units live in
 # C02's spec (BlobLocations is shared with prune/copy) and are verified as part of this property's check as well
+DMP = "crates/core/src/commands/dump.rs"
+UNITS += [
+    Unit(name="dump_sequential", file=DMP, anchor="fn dump_sequential<S: IndexedFull>(", ret_name="r",
+         functions=["commands::dump::dump_sequential"],
+         rewrites=[
+             Rw("fn dump_sequential<S: IndexedFull>(", "fn dump_sequential(", sig=True, why="repository state generic -> blob source stub"),
+             Rw("repo: &Repository<S>,", "repo: &VRepo,", sig=True, why="repository -> blob source stub"),
+             Rw("w: &mut impl Write,", "w: &mut VWriter,", sig=True, why="io::Write -> ghost output stream"),
+             Rw("for id in content {", "for id in it: content.iter() {", why="Verus for-loop syntax"),
+             Rw("repo.get_blob_cached(&BlobId::from(**id), BlobType::Data)?", "repo.vget_data_blob(id)?", why="get_blob_cached (index lookup, pack read, decrypt, cache) -> stub: the blob's plaintext"),
+             Rw("write_blob(w, &data)", "vwrite_blob(w, &data)", count=None, why="write_all + error mapping -> ghost output stream"),
+         ],
+         contract="""
+    ensures
+        /*@dump_writes_the_blobs_in_content_order*/ r is Ok ==> final(w).out@ == old(w).out@ + file_of(content@),
+""",
+         loops={1: "\n        invariant w.out@ =~= old(w).out@ + file_upto(content@, it.index@),\n"},
+         hints=[("loop_start", "1", "        proof { assert(content@[it.index@] == *id); assert(file_upto(content@, it.index@ + 1) == file_upto(content@, it.index@) + BLOB(content@[it.index@])); }")],
+         ),
+]
+
 SATELLITES = [("C02", ["blob_constants", "BlobLocation", "BlobLocations", "from_blob_location", "can_coalesce", "append", "coalesce", "PackToDo", "RepackReason", "PackInfo", "PrunePack", "CopyPackBlobs", "RestorePackInfo", "restore_packinfo_coalesce", "FileLocation", "restore_read_of_blob", "restore_needed_pack"]),
               # "restore to disk" is one of the ways of reading a snapshot back: the restore units of C14's spec (node stream, plan,
               # merge walk with the destination, write task) are verified as part of this property's check as well
@@ -186,6 +207,6 @@ SATELLITES = [("C02", ["blob_constants", "BlobLocation", "BlobLocations", "from_
 META = {"not_covered": [
     "the iterator chain of FileArchiver::backup_reader (its per-chunk closure is a unit of C07: backup_chunk), Archiver::archive (threads/channels), TreeArchiver::finalize (`mut self`)",
     "Tree::serialize (serde_json) and the node metadata / name escaping (strings, serde): uninterpreted",
-    "restore writer, dump, metadata application; the composition of the kernels into backup -> restore",
+    "the parallel path of dump (pariter: ordered parallel map, files with two or more blobs), metadata application; the composition of the kernels into backup -> restore",
     "summary counters assumed not to wrap (u64 sums of one run)",
 ]}
